@@ -454,20 +454,20 @@ func c01(r *hx.Run) {
 	ps := &plans{}
 	w.Farm.SetScript(ps.script)
 	evictions := watchEvictions("c01")
-	c01Bursts(r, w, ps, rnd, r.Pick(120, 2500))
+	c01Bursts(r, w, ps, rnd, r.Pick(120, 12000))
 	w.Pts.SetJitter(nil, 0)
-	nd := r.Pick(40, 1000)
+	nd := r.Pick(40, 4000)
 	for i := 0; i < nd && !r.TooMany(); i++ {
 		c01Directed(r, w, ps, i, []int64{1, 2, 5, 60}[i%4])
 	}
-	for i := 0; i < r.Pick(20, 500) && !r.TooMany(); i++ {
+	for i := 0; i < r.Pick(20, 2000) && !r.TooMany(); i++ {
 		c01DirectedLookup(r, w, ps, i, []int64{1, 3, 60}[i%3])
 	}
-	for i := 0; i < r.Pick(12, 300) && !r.TooMany(); i++ {
+	for i := 0; i < r.Pick(12, 1500) && !r.TooMany(); i++ {
 		c01DirectedSlowFetch(r, w, ps, i, []int64{5, 11, 61, 301, 3601}[i%5])
 	}
 	w.Pts.SetJitter(c01JitterPoints, 200)
-	c01Porcupine(r, w, ps, rnd, r.Pick(60, 1500))
+	c01Porcupine(r, w, ps, rnd, r.Pick(60, 6000))
 	if n := evictions.Load(); n != 0 {
 		r.Inconclusive(fmt.Sprintf("%d evictions happened; the entry model assumes none", n))
 	}
